@@ -115,6 +115,10 @@ class Run:
         self.fault_seen_after_valid = False
         self.nontrivial = False
         self.dead = [False] * hist["viewers"]
+        # what the proxy's own message handlers (object tracking, parcels, name cache, addons' subscriptions) get to see
+        self.dispatched = []
+        for vw in self.world.viewers:
+            vw["session"].message_handler.subscribe("*", lambda m, _l=self.dispatched: _l.append(m.name))
 
     def next_pid(self, v, r, d):
         # sequence numbers start at 1 (the reference viewer) or at 0 (hippolyzer's own client): both are legal U32 values
@@ -329,7 +333,11 @@ class Run:
             if (v, addr) not in self.learned or not self.open.get((v, r)):
                 self.classes.pop()
                 return None
+            n_disp = len(self.dispatched)
             sent, exc = w.from_sim(v, addr, payload)
+            if len(self.dispatched) != n_disp:
+                return [("fault-disturbed-state:banned_in:dispatched", "a %s received over UDP (banned there) was still dispatched to the session's "
+                         "message handlers" % case["name"])]
         elif kind in ("truncated", "bitflip", "unknown_msgnum"):
             inbound = bool(p & 1) and (v, addr) in self.learned
             if not self.open.get((v, r)):
@@ -446,6 +454,10 @@ def _events(nv, nr):
     v2s_case = gt.message_case(names=V2S_NAMES, **small)
     s2v_case = gt.message_case(names=S2V_NAMES, **small)
     banned_case = gt.message_case(names=BANNED_NAMES, **small)
+    # messages the proxy's own bookkeeping parses (object tracking, name cache, parcels): a corrupt one of these gets parsed lazily
+    parsed_case = gt.message_case(names=[n for n in ("KillObject", "CoarseLocationUpdate", "UUIDNameReply", "ObjectUpdate", "ObjectUpdateCached",
+                                                     "ImprovedTerseObjectUpdate", "ObjectProperties", "RequestMultipleObjects", "ParcelOverlay")
+                                         if n in gt.TEMPLATES], **small)
     kinds = ["frag", "rsv", "atyp", "atyp3", "short", "nonsocks", "unknown_host", "unregistered", "truncated", "bitflip", "unknown_msgnum",
              "foreign_ucc", "foreign_socks", "replay_ucc"]
     return st.one_of(
@@ -456,6 +468,7 @@ def _events(nv, nr):
         st.tuples(st.just("disconnect"), vs),
         st.tuples(st.just("fault"), st.sampled_from(kinds), vs, rs, v2s_case, st.integers(0, 10000)),
         st.tuples(st.just("fault"), st.just("banned_in"), vs, rs, banned_case, st.integers(0, 10000)),
+        st.tuples(st.just("fault"), st.sampled_from(["truncated", "truncated", "bitflip"]), vs, rs, parsed_case, st.integers(0, 10000).map(lambda i: i | 1)),
     )
 
 
